@@ -637,6 +637,7 @@ func jsonTags(p *core.Program, rel, typ string) map[string]string {
 func c09r4(c *core.Ctx) {
 	charSetters(c)
 	charGateExact(c)
+	convertKeepsStrings(c)
 	p := c.P
 	f := p.Func("hap/http", "(*Server).Characteristics")
 	if f == nil {
@@ -899,5 +900,72 @@ func c09r5(c *core.Ctx) {
 			}
 		})
 		c.Check(ok, "WriteJSON-whole-buffer", wj.Pos(), "WriteJSON writes the encoder's whole buffer through the chunked writer", "WriteJSON does not hand the encoder's complete buffer to the chunked writer")
+	}
+}
+
+// convertKeepsStrings: for the string-valued formats convert hands back the string form of what it was given, whole. Numbers have a
+// declared range that the stored value is brought into (C12); strings have none in the attribute database this library serves, so a
+// string that is cut, trimmed or re-cased on the way in is a value the controller reads that nobody set.
+func convertKeepsStrings(c *core.Ctx) {
+	f := c.P.Func("characteristic", "(*Characteristic).convert")
+	if f == nil || len(f.Params) < 2 {
+		c.Undecided("convert", token.NoPos, "not found")
+		return
+	}
+	param := f.Params[1]
+	var whole func(v ssa.Value, d int) bool
+	whole = func(v ssa.Value, d int) bool {
+		if d == 0 {
+			return false
+		}
+		switch x := v.(type) {
+		case *ssa.Call:
+			// the conversion of the parameter itself
+			cal := x.Call.StaticCallee()
+			if cal == nil || core.InModule(cal) || len(x.Call.Args) != 1 {
+				return false
+			}
+			return valIs(x.Call.Args[0], param) && (cal.Name() == "String" || cal.Name() == "Sprint")
+		case *ssa.TypeAssert:
+			return valIs(x.X, param)
+		case *ssa.Extract:
+			ta, ok := x.Tuple.(*ssa.TypeAssert)
+			return ok && x.Index == 0 && valIs(ta.X, param)
+		case *ssa.Phi:
+			for _, e := range x.Edges {
+				if !whole(e, d-1) {
+					return false
+				}
+			}
+			return len(x.Edges) > 0
+		case *ssa.ChangeType:
+			return whole(x.X, d-1)
+		}
+		return false
+	}
+	n, bad := 0, 0
+	core.Instrs(f, func(i ssa.Instruction) {
+		r, ok := i.(*ssa.Return)
+		if !ok || len(res(r)) != 1 {
+			return
+		}
+		mi, ok := res(r)[0].(*ssa.MakeInterface)
+		if !ok {
+			return
+		}
+		b, ok := mi.X.Type().Underlying().(*types.Basic)
+		if !ok || b.Info()&types.IsString == 0 {
+			return
+		}
+		n++
+		if !whole(mi.X, 6) {
+			bad++
+			c.Bad("convert-keeps-strings@"+fname(f), r.Pos(), "convert returns a string that is not the plain string form of its argument (sliced, trimmed, replaced, concatenated): the value a controller reads is not the value that was set")
+		}
+	})
+	if n == 0 {
+		c.Undecided("convert-keeps-strings@"+fname(f), f.Pos(), "convert has no string-valued return")
+	} else if bad == 0 {
+		c.OK("convert-keeps-strings@"+fname(f), f.Pos(), "%d string-valued return(s): the plain string form of the argument", n)
 	}
 }
